@@ -133,7 +133,7 @@ func c12RealBackends(ctx *Ctx) {
 		if kind == "cmd-writeonly" {
 			k = "cmd" // no getPwm command: fan2go cannot read the value back
 		}
-		sc := &Scenario{Fan: FanSpec{Kind: k, HomePath: home, HasPwm: kind != "cmd-writeonly", HasEnable: kind == "hwmon"}, Plant: PlantSpec{Kind: "const", Const: 1200}, Loop: LoopSpec{Kind: "direct"},
+		sc := &Scenario{Fan: FanSpec{Kind: k, HomePath: home, HasPwm: kind != "cmd-writeonly", HasEnable: kind == "hwmon", CmdOneTool: k == "cmd" && r.Intn(2) == 0}, Plant: PlantSpec{Kind: "const", Const: 1200}, Loop: LoopSpec{Kind: "direct"},
 			Map: pick(r, MapSpec{Kind: "readme"}, MapSpec{Kind: "hundred"}, genMap(r, false), genMap(r, false)), Window: 1, InitPwm: r.Intn(256), InitMode: 2, PriorRpm: 1200}
 		n := 40
 		if k == "cmd" {
@@ -143,8 +143,22 @@ func c12RealBackends(ctx *Ctx) {
 			sc.Steps = append(sc.Steps, CycleStep{Curve: pick(r, 0, 255, 45, 110, 205, r.Intn(256), r.Intn(256)), DtMs: 200})
 		}
 		moved := false
+		setFailed := false // the set command of the cycle just observed was made to fail
 		runScenario(ctx, sc, func(w *World, rec *CycleRecord) bool {
 			ctx.Eval(1)
+			failedNow := setFailed
+			if w.cmdDir != "" {
+				// a transient failure of the set command: nothing is demanded of that cycle, the following cycle must
+				// bring the fan to its value even if the request did not change
+				_ = os.Remove(filepath.Join(w.cmdDir, "setfail"))
+				setFailed = r.Intn(5) == 0
+				if setFailed {
+					_ = os.WriteFile(filepath.Join(w.cmdDir, "setfail"), []byte("1"), 0644)
+				}
+			}
+			if failedNow {
+				return rec.Panic != ""
+			}
 			if rec.Err != nil || rec.Panic != "" || !rec.HasRequest || w.PwmMap == nil {
 				return rec.Panic != ""
 			}
